@@ -189,6 +189,16 @@ def _scorer_subset(case, gd):
             dm.add_value(i, j, d[i, j])
     plates = {int(p_.plate_id): p_ for p_ in screen.plates}
     scorer = attach(gd, "GaussianDBALScorer")(max_chunk=case["max_chunk"], max_triples=budget)
+    if n >= 4 and case["seed"] % 2 == 0:
+        # the scorer object has been used before with FEWER posterior samples (an earlier round of a simulation)
+        small = ThetaHolder(n_thetas=n - 1)
+        for i in range(n - 1):
+            small.add_theta(T(i))
+        dm_small = ChunkedDistanceMatrix(size=n - 1)
+        for i in range(n - 1):
+            for j in range(i):
+                dm_small.add_value(i, j, d[i, j])
+        scorer.score(plates=plates, distance_matrix=dm_small, samples=small, rng=np.random.default_rng(case["seed"] + 2), progress_bar=False)
     got = scorer.score(plates=plates, distance_matrix=dm, samples=holder, rng=np.random.default_rng(case["seed"] + 1), progress_bar=False)
     c = math.comb(n, 3)
     b = min(budget, c)
